@@ -17,6 +17,39 @@ fn main() {
                 println!("{}", p.id());
             }
         }
+        "sample" => {
+            // sample <ID> <n> [discard|fail|class:<name>|any]  - print matching generated cases (debug aid)
+            let p = props::by_id(args.get(1).map(|s| s.as_str()).unwrap_or("")).expect("property");
+            let n: u64 = args.get(2).and_then(|s| s.parse().ok()).unwrap_or(100);
+            let what = args.get(3).cloned().unwrap_or_else(|| "any".into());
+            dtr_verif::real::install_panic_hook();
+            let lens = p.stream_lens();
+            let mut shown = 0;
+            for k in 0..n {
+                let mut st: dtr_verif::engine::Streams = [vec![], vec![], vec![]];
+                for (j, l) in lens.iter().enumerate() {
+                    let len = (dtr_verif::choice::mix3(k, j as u64, 99) % (*l as u64 + 1)) as usize;
+                    st[j] = (0..len).map(|i| dtr_verif::choice::mix3(k, j as u64, i as u64) as u32).collect();
+                }
+                let out = p.run(&st);
+                let m = match what.as_str() {
+                    "discard" => matches!(out.verdict, dtr_verif::engine::Verdict::Discard(_)),
+                    "fail" => out.is_fail(),
+                    "any" => true,
+                    w => w.strip_prefix("class:").map(|c| out.classes.iter().any(|x| *x == c)).unwrap_or(false),
+                };
+                if m {
+                    shown += 1;
+                    println!("---- case {k}: {:?} classes={:?}", out.verdict, out.classes);
+                    for (k, v) in &out.render {
+                        println!("[{k}]\n{v}");
+                    }
+                    if shown >= 5 {
+                        break;
+                    }
+                }
+            }
+        }
         "check" => {
             let Some(id) = args.get(1) else { usage() };
             let Some(p) = props::by_id(id) else {
